@@ -18,7 +18,8 @@ RULE = ("post-conditions on the real Measurement operators (+, -, *, /, ** and t
         "zero/non-zero sigma, shape classes); non-trivial = at least one sigma > 0"
         " Uncertainties also come in another numeric type than the measurand; operands on temperature scales (alone, inside compound units, user scales in other dimensions, scales sharing a zero point), extreme float magnitudes in quotients, one object on both sides, and measurements whose stated uncertainty is revised between two uses."
         " Scales and degrees of the user's own are recalibrated (zero point through conversions.translate, degree size through equals) between identical sums."
-        " Augmented assignments (*= /= += -= **=) must equal the binary operators and leave the aliased operand alone.")
+        " Augmented assignments (*= /= += -= **=) must equal the binary operators and leave the aliased operand alone."
+        " Float and int readings of 1e60..1e200 whose propagation terms square out of the float range, under decimal contexts of 4-28 digits: OverflowError or the right number.")
 ASSUMPTIONS = [
     "oracle: sigma_f^2 = sum((df/dx_i * sigma_i)^2) evaluated in 50-digit decimal from the exact operand values; "
     "x*x is two independent inputs",
